@@ -4092,28 +4092,24 @@ impl<'a> Tyck<'a> for TyEnvT<su::TermId> {
                 | AnnId::Type(ty) => match tycker.statics.types_pre[&ty].to_owned() {
                     // An inference variable that is already solved selects its solution: the
                     // term is analyzed against it (a literal takes that width, for one).
-                    | Fillable::Fill(fill)
-                        if matches!(tycker.statics.solus.get(&fill), Some(AnnId::Type(_))) =>
-                    {
-                        let Some(AnnId::Type(solution)) = tycker.statics.solus.get(&fill).copied()
-                        else {
-                            unreachable!("the guard has seen the solution")
-                        };
-                        return self.tyck_k(tycker, Action::ana(solution.into()));
+                    | Fillable::Fill(fill) => {
+                        if let Some(AnnId::Type(solution)) = tycker.statics.solus.get(&fill).copied()
+                        {
+                            return self.tyck_k(tycker, Action::ana(solution.into()));
+                        }
+                        match self.tyck_k(tycker, Action::syn())? {
+                            | TermAnnId::Value(v, ty) => {
+                                let ty = fill.fill_k(tycker, ty.into())?.as_type();
+                                return Ok(TermAnnId::Value(v, ty));
+                            }
+                            | TermAnnId::Compu(c, ty) => {
+                                let ty = fill.fill_k(tycker, ty.into())?.as_type();
+                                return Ok(TermAnnId::Compu(c, ty));
+                            }
+                            | TermAnnId::Hole(_) | TermAnnId::Kind(_) | TermAnnId::Type(_, _) => tycker
+                                .err_k(TyckError::SortMismatch, std::panic::Location::caller())?,
+                        }
                     }
-                    | Fillable::Fill(fill) => match self.tyck_k(tycker, Action::syn())? {
-                        | TermAnnId::Value(v, ty) => {
-                            let ty = fill.fill_k(tycker, ty.into())?.as_type();
-                            return Ok(TermAnnId::Value(v, ty));
-                        }
-                        | TermAnnId::Compu(c, ty) => {
-                            let ty = fill.fill_k(tycker, ty.into())?.as_type();
-                            return Ok(TermAnnId::Compu(c, ty));
-                        }
-                        | TermAnnId::Hole(_) | TermAnnId::Kind(_) | TermAnnId::Type(_, _) => {
-                            tycker.err_k(TyckError::SortMismatch, std::panic::Location::caller())?
-                        }
-                    },
                     | _ => {
                         let preparation_is_valid = prepared_environment
                             .as_ref()
